@@ -128,6 +128,7 @@ func cmdUnit(args []string) int {
 	timeout := fs.Int("timeout", 10, "per-obligation timeout (s)")
 	verbose := fs.Bool("v", false, "verbose")
 	edges := fs.Bool("edges", false, "report CFG edges that are infeasible under the contract (vacuity audit)")
+	only := fs.String("only", "", "solve only the obligations whose name contains this text (development)")
 	fs.Parse(args)
 	cs, err := loadAllContracts(*root, modPath, *verif+"/specs")
 	if err != nil {
@@ -188,6 +189,7 @@ func cmdUnit(args []string) int {
 	p.Contracts = cs
 	p.EdgeCovers = *edges
 	p.expandSweeps()
+	p.markViaContract()
 	fmt.Printf("loaded %v in %.1fs\n", pkgs, time.Since(t0).Seconds())
 	rc := 0
 	report := func(ur *UnitResult) {
@@ -244,6 +246,19 @@ func cmdUnit(args []string) int {
 		if ur.Err == "" {
 			terms, names := fr.inputTerms()
 			qs := g.buildQueries(ur.Name, terms, names)
+			if *only != "" {
+				var keep []*Query
+				for _, q := range qs {
+					n := q.Name
+					if q.Group == "frame" {
+						n = q.Unit + ".frame"
+					}
+					if strings.Contains(n, *only) {
+						keep = append(keep, q)
+					}
+				}
+				qs = keep
+			}
 			if *dump != "" {
 				os.MkdirAll(*dump, 0755)
 				for i, q := range qs {
